@@ -48,4 +48,8 @@ META["C15"] = {
     "text": "Bounded symbolic model checking with base58 as an opaque injective encoding: for every 20-byte hash / 33-byte key and both networks, derived addresses decode to the same hash and every constructor yields the canonical 25-byte script (hash/address recovered); for every 24/25/26-byte payload the solver decides that a wrong length, unsupported version or wrong checksum is rejected by NewAddressFromString / NewP2PKHFromAddress. Every single-character edit (substitute, insert, delete, transpose; all printable characters, all positions) of concrete valid addresses is decided against an independent Base58Check reference decoder; there the engine forks over position and character and executes the real code with real SHA-256.",
     "note": "Trusted: gosym, z3; base58.Encode opaque+injective with Decode its inverse (go-bk radix arithmetic not verified; real algorithm used on concrete strings); SHA-256 uninterpreted on symbolic input. Known finding (not repairable with the pinned tests unedited): the address checksum is never verified by NewAddressFromString.",
 }
+META["C17"] = {
+    "text": "Bounded symbolic model checking of EncodeBIP276 / DecodeBIP276 / ValidateAddress for all 65,025 version/network pairs at once (two symbolic bytes), both prefixes and symbolic payloads up to L bytes: round trip, layout against a reference built from the BIP text, rejection of a wrong checksum character and of non-hex characters at every position. The regular expression is executed by a backtracking matcher model in which every character-class test is a solver-decided fork.",
+    "note": "Trusted: gosym, z3, the regexp matcher model (validated by native replay), compact encoding/hex model, SHA-256 uninterpreted. Known finding: the encoder writes network before version (pinned by TestEncodeBIP276).",
+}
 NOT_APPLICABLE = {}
